@@ -304,7 +304,8 @@ Sess1Spec == SessInit /\ [][Sess1Next]_vars
 Sess1Mut == \/ \E cl \in BOOLEAN : Connect(c1, k1, cl, NoWill)
             \/ Subscribe(c1, 1, << <<<<"a">>, 1>> >>)
             \* a request whose first filter is rejected: what the session keeps is what was granted, filter by filter
-            \/ Subscribe(c1, 1, << <<<<"a","#","x">>, 0>>, <<<<"a">>, 0>>, <<<<"b">>, 1>> >>)
+            \* (its last filter is a wildcard filter: a session stores filters, not topic names)
+            \/ Subscribe(c1, 1, << <<<<"a","#","x">>, 0>>, <<<<"a">>, 0>>, <<<<"+">>, 1>> >>)
             \/ Unsubscribe(c1, 2, << <<"a">> >>)
             \/ \E how \in {"disconnect", "cut"} : End(c1, how)
             \* somebody starts to resume the session on another connection and gives up before the CONNACK can be
